@@ -110,9 +110,9 @@ func checkC12(c *Ctx) {
 	st.Wait()
 
 	// ---- (2) end to end
-	maxPre, maxPost := 2, 1
+	maxPre, maxPost, leanFrom := 2, 1, 28
 	if c.Thorough() {
-		maxPre, maxPost = 3, 2
+		maxPre, maxPost, leanFrom = 3, 2, 28
 	}
 	type progVec struct {
 		Text  []string `json:"text"`
@@ -154,7 +154,7 @@ func checkC12(c *Ctx) {
 		}
 	})
 	c.TLC(TLCOpt{Module: "MC_TextProg",
-		Cfg: cfgText("INIT Init", "NEXT Next", "CONSTANTS", fmt.Sprintf("MaxPre = %d", maxPre), fmt.Sprintf("MaxPost = %d", maxPost),
+		Cfg: cfgText("INIT Init", "NEXT Next", "CONSTANTS", fmt.Sprintf("MaxPre = %d", maxPre), fmt.Sprintf("MaxPost = %d", maxPost), fmt.Sprintf("LeanFrom = %d", leanFrom),
 			"INVARIANT Laws", "INVARIANT Vec", "CHECK_DEADLOCK FALSE"),
 		OnVec: func(raw []byte) {
 			var v progVec
